@@ -538,4 +538,144 @@ theorem parseLine_plain (l : Bytes) (hd : DollarLine l = false) (hne : l ≠ [])
     cases parsePattern (truncateNonEscapedTrailingSpaces (first :: rest)) true <;> rfl
 
 
+
+/-! ### closed forms of the two decisions -/
+
+/-- the deepest positive entry -/
+def lastPositive : List (Option Hit) → Option Hit
+  | [] => none
+  | m :: rest =>
+    match lastPositive rest with
+    | some h => some h
+    | none => match m with
+      | some h => if !h.negative then some h else none
+      | none => none
+
+/-- the deepest entry at all -/
+def lastSome : List (Option Hit) → Option Hit
+  | [] => none
+  | m :: rest =>
+    match lastSome rest with
+    | some h => some h
+    | none => m
+
+/-- `chooseDirMatch` (the fold of `matching_exclude_pattern`) in closed form -/
+theorem choose_closed : ∀ (ms : List (Option Hit)),
+    chooseDirMatch ms = (match lastPositive ms with
+      | some h => some h
+      | none => lastSome ms) ∧
+    (lastPositive ms = none → ∀ h, lastSome ms = some h → h.negative = true) ∧
+    (∀ h, lastPositive ms = some h → h.negative = false) := by
+  intro ms
+  induction ms with
+  | nil => simp [chooseDirMatch, lastPositive, lastSome]
+  | cons m rest ih =>
+    obtain ⟨ih1, ih2, ih3⟩ := ih
+    cases hp : lastPositive rest with
+    | some hpos =>
+      have hn := ih3 hpos hp
+      rw [hp] at ih1
+      refine ⟨?_, ?_, ?_⟩
+      · simp [chooseDirMatch, ih1, hn, lastPositive, hp]
+      · intro h; simp [lastPositive, hp] at h
+      · intro h e; simp [lastPositive, hp] at e; subst e; exact hn
+    | none =>
+      rw [hp] at ih1
+      simp only at ih1
+      cases hs : lastSome rest with
+      | none =>
+        rw [hs] at ih1
+        cases m with
+        | none => simp [chooseDirMatch, ih1, lastPositive, hp, lastSome, hs]
+        | some hm =>
+          by_cases hmn : hm.negative = true
+          · simp [chooseDirMatch, ih1, lastPositive, hp, lastSome, hs, hmn]
+          · simp [chooseDirMatch, ih1, lastPositive, hp, lastSome, hs, hmn]
+      | some hd =>
+        rw [hs] at ih1
+        have hdn := ih2 hp hd hs
+        cases m with
+        | none => simp [chooseDirMatch, ih1, lastPositive, hp, lastSome, hs, hdn]
+        | some hm =>
+          by_cases hmn : hm.negative = true
+          · simp [chooseDirMatch, ih1, lastPositive, hp, lastSome, hs, hdn, hmn]
+          · simp [chooseDirMatch, ih1, lastPositive, hp, lastSome, hs, hdn, hmn]
+
+
+
+theorem lastPositive_isSome (ms : List (Option Hit)) : (lastPositive ms).isSome = (firstPositive ms).isSome := by
+  induction ms with
+  | nil => rfl
+  | cons m rest ih =>
+    cases m with
+    | none => simp only [lastPositive, firstPositive]; cases h : lastPositive rest <;> simp [h] at ih ⊢ <;> exact ih
+    | some hm =>
+      by_cases hmn : hm.negative = true
+      · simp only [lastPositive, firstPositive, hmn]
+        cases h : lastPositive rest <;> simp [h] at ih ⊢ <;> exact ih
+      · simp only [lastPositive, firstPositive, hmn]
+        cases h : lastPositive rest <;> simp
+
+/-- what gitoxide reports, in closed form: the pattern of the DEEPEST excluded directory, else what
+matches the path itself, else the deepest negative directory match -/
+theorem decide_closed (overrides globals : List (PList α)) (rootList : PList α)
+    (dirs : List (Bytes × PList α)) (path : Bytes) (isDir : Bool) :
+    C37.decide matchOne neg overrides globals rootList dirs path isDir =
+      match lastPositive (dirMatches matchOne neg overrides globals dirs [rootList]) with
+      | some h => some h
+      | none => (lastMatchingFromLists matchOne neg overrides ([rootList] ++ dirs.map (·.2)) globals path isDir).or
+          (lastSome (dirMatches matchOne neg overrides globals dirs [rootList])) := by
+  unfold C37.decide
+  rw [pushDirectories_eq]
+  simp only [List.nil_append]
+  obtain ⟨h1, h2, h3⟩ := choose_closed (dirMatches matchOne neg overrides globals dirs [rootList])
+  rw [h1]
+  cases hp : lastPositive (dirMatches matchOne neg overrides globals dirs [rootList]) with
+  | some h => simp [h3 h hp]
+  | none =>
+    simp only [groupsMatch_eq]
+    cases hs : lastSome (dirMatches matchOne neg overrides globals dirs [rootList]) with
+    | none => simp
+    | some h => simp [h2 hp h hs]
+
+/-- what git reports, in closed form: the pattern of the TOP-MOST excluded directory, else what matches the path itself -/
+theorem gitDecide_closed (overrides globals : List (PList α)) (rootList : PList α)
+    (dirs : List (Bytes × PList α)) (path : Bytes) (isDir : Bool) :
+    gitDecide matchOne neg overrides globals rootList dirs path isDir =
+      match firstPositive (dirMatches matchOne neg overrides globals dirs [rootList]) with
+      | some h => some h
+      | none => lastMatchingFromLists matchOne neg overrides ([rootList] ++ dirs.map (·.2)) globals path isDir := by
+  unfold gitDecide
+  rw [prepExclude_eq]
+  cases firstPositive (dirMatches matchOne neg overrides globals dirs [rootList]) <;> rfl
+
+/-- EXACTLY when the two reports coincide: the deepest and the top-most excluded directory are matched
+by the same pattern, and — when no directory is excluded and nothing matches the path itself — no
+negative pattern matched a directory on the way. No side condition. -/
+theorem decide_eq_git_iff' (overrides globals : List (PList α)) (rootList : PList α)
+    (dirs : List (Bytes × PList α)) (path : Bytes) (isDir : Bool) :
+    C37.decide matchOne neg overrides globals rootList dirs path isDir =
+        gitDecide matchOne neg overrides globals rootList dirs path isDir ↔
+      (lastPositive (dirMatches matchOne neg overrides globals dirs [rootList]) =
+          firstPositive (dirMatches matchOne neg overrides globals dirs [rootList]) ∧
+        (firstPositive (dirMatches matchOne neg overrides globals dirs [rootList]) = none →
+          lastMatchingFromLists matchOne neg overrides ([rootList] ++ dirs.map (·.2)) globals path isDir = none →
+          lastSome (dirMatches matchOne neg overrides globals dirs [rootList]) = none)) := by
+  rw [decide_closed, gitDecide_closed]
+  have hs := lastPositive_isSome (dirMatches matchOne neg overrides globals dirs [rootList])
+  cases hl : lastPositive (dirMatches matchOne neg overrides globals dirs [rootList]) with
+  | some a =>
+    cases hf : firstPositive (dirMatches matchOne neg overrides globals dirs [rootList]) with
+    | none => rw [hl, hf] at hs; cases hs
+    | some b => simp
+  | none =>
+    cases hf : firstPositive (dirMatches matchOne neg overrides globals dirs [rootList]) with
+    | some b => rw [hl, hf] at hs; cases hs
+    | none =>
+      simp only [true_and, forall_const]
+      cases hp : lastMatchingFromLists matchOne neg overrides ([rootList] ++ dirs.map (·.2)) globals path isDir with
+      | some x => simp
+      | none => simp
+
+
 end GixModel.C37
